@@ -417,6 +417,9 @@ pub enum Dispatcher {
     Reversed,
     /// every branch reached through two chained JUMPIs
     Chained,
+    /// every branch behind a conditional jump whose condition is a literal (1 for even branches, 0 for odd ones): the
+    /// symbolic machine takes both outcomes of every conditional jump whatever the condition
+    LiteralGuards,
 }
 
 /// First token of a branch body that must not start with the POP of the dispatcher's selector word.
@@ -429,6 +432,10 @@ pub fn program(branches: &[Vec<Tok>], d: Dispatcher) -> Vec<u8> {
     let mut t: Vec<Tok> = vec![p(0), o(op::CALLDATALOAD), p(0xe0), o(op::SHR)];
     for i in 0..n {
         let sel = U::from_u64(0xa000_0000 + i as u64);
+        if d == Dispatcher::LiteralGuards {
+            t.extend([Tok::PushN(1, U::from_u64(1 - (i as u64 & 1))), Tok::PushLabel(i as u8, U::ZERO), o(op::JUMPI)]);
+            continue;
+        }
         t.extend([o(op::DUP1), Tok::PushN(4, sel), o(op::EQ)]);
         match d {
             Dispatcher::Chained => t.push(Tok::PushLabel(100 + i as u8, U::ZERO)),
